@@ -66,13 +66,15 @@ Section PathOrContent.
   Variable fs : str -> option (list N).          (* the file system: path -> bytes *)
   Variable dec : list N -> option str.           (* the file class's declared codec *)
   Variable enc : str -> option (list N).
+  Variable tr : str -> str.                      (* newline translation of text-mode open() (universal newlines) *)
   Variable A : Type.
   Variable parse : str -> A.                     (* what the reading driver computes from the decoded text *)
 
-  (* reading adapter, text storage: an existing file is opened with the declared encoding, anything else is the content *)
+  (* reading adapter, text storage: an existing file is opened in text mode with the declared encoding (decoded, newlines
+     translated); anything else is the content itself, wrapped in a StringIO (no translation) *)
   Definition read_any (arg : str) : option A :=
     match fs arg with
-    | Some b => option_map parse (dec b)         (* None = UnicodeDecodeError *)
+    | Some b => option_map (fun s => parse (tr s)) (dec b)         (* None = UnicodeDecodeError *)
     | None => Some (parse arg)
     end.
   (* binary storage: bytes as they are *)
@@ -80,9 +82,12 @@ Section PathOrContent.
   Definition read_any_bin (arg : list N) (as_path : option (list N)) : A :=
     match as_path with Some b => parse_b b | None => parse_b arg end.
 
-  (* writing adapter: a str destination is a path opened with the declared encoding; otherwise the caller's buffer *)
-  Definition write_path (text : str) : option (list N) := enc text.
-  Definition write_mem (text : str) : str := text.
+  (* writing adapter: a str destination is a path opened in text mode with the declared encoding; otherwise the caller's
+     buffer. The file receives the chunks the elements write; the incremental encoder emits its preamble (the utf-16 BOM)
+     with the first write call, so a file that received no write call at all is empty. *)
+  Definition write_path (chunks : list str) : option (list N) :=
+    match chunks with [] => Some [] | _ => enc (concat chunks) end.
+  Definition write_mem (chunks : list str) : str := concat chunks.
 End PathOrContent.
 
 (* entry point: (kind impl-flags endpoint behaviours content) *)
